@@ -28,8 +28,8 @@ Inductive perror :=
 | AttrError (id : N)
 | NoRootError.                  (* ParsingError("invalid XML, no root element found") *)
 
-Inductive outcome (A : Type) := Ok (a : A) | Err (e : perror) | Panic | OutOfFuel.
-Arguments Ok {A} a. Arguments Err {A} e. Arguments Panic {A}. Arguments OutOfFuel {A}.
+Inductive outcome (A : Type) := Ok (a : A) | Err (e : perror) | OutOfFuel.
+Arguments Ok {A} a. Arguments Err {A} e. Arguments OutOfFuel {A}.
 
 (* attribute keys in order, stopping at the first fault *)
 Fixpoint attr_keys (l : list attr_res) : perror + list str :=
@@ -90,68 +90,72 @@ Definition tag_optional_children (root : element) (n : str) (cc : list (str * N)
 Definition known_add (known : list str) (n : str) : list str :=
   if mem n known then known else known ++ [n].
 
-Section Build.
-  (* build_struct with parse_tag inlined; recursion on fuel, each call consumes an event *)
-  Fixpoint build_struct (fuel : nat) (evs : list event) (root : element) (known : list str)
-    {struct fuel} : outcome (element * list event) :=
-    match fuel with
-    | O => OutOfFuel
-    | S fuel' =>
-        match evs with
-        | [] => Ok (root, [])                                   (* Eof *)
-        | ev :: rest =>
-            let tag (n : res str) (attrs : list attr_res) (empty : bool) :=
-              match n with
-              | RBad id => Err (FromUtf8Error id)
-              | ROk name =>
-                  let '(cc, chk) := if empty then ([], true)
-                                    else snapshot (get_child (echildren root) name) in
-                  let '(found, others) := remove_child (echildren root) name in
-                  let root1 := set_children root others in
-                  match attr_keys attrs with
-                  | inl e => Err e
-                  | inr keys =>
-                      let start :=
-                        match found with
-                        | Some c =>
-                            let c1 := merge_attr (snd c) (map (fun a => (Mand, a)) keys) in
-                            let c2 := if mem name known then set_multiple c1 else c1 in
-                            if ecount c2 =? u32_max then None else Some (increment c2)
-                        | None =>
-                            let c1 := new_element name keys in
-                            Some (if mem name known then set_multiple c1 else c1)
-                        end in
-                      match start with
-                      | None => Panic                           (* `count += 1` overflow *)
-                      | Some c0 =>
-                          let sub := if empty then Ok (c0, rest)
-                                     else build_struct fuel' rest c0 [] in
-                          match sub with
-                          | Ok (child, rest') =>
-                              let known' := known_add known name in
-                              let root2 := add_unique_child root1 child in
-                              let root3 := if chk then tag_optional_children root2 name cc
-                                           else root2 in
-                              build_struct fuel' rest' root3 known'
-                          | Err e => Err e
-                          | Panic => Panic
-                          | OutOfFuel => OutOfFuel
-                          end
-                      end
-                  end
-              end in
-            match ev with
-            | EStart n attrs => tag n attrs false
-            | EEmpty n attrs => tag n attrs true
-            | EEnd => Ok (root, rest)
-            | EText (ROk _) | ECData (ROk _) => build_struct fuel' rest (set_text root true) known
-            | EText (RBad id) | ECData (RBad id) => Err (FromUtf8Error id)
-            | EMisc => build_struct fuel' rest root known
-            | EErr p id => Err (QuickXmlError p id)
-            end
-        end
-    end.
-End Build.
+(* parse_tag up to the point where the tag's content is read: the snapshot taken by
+   count_children (an `<x/>` takes none and is always checked against an empty one), the
+   parent without the tag, and the child element that will absorb the content *)
+Definition tag_open (root : element) (name : str) (keys : list str) (known : list str)
+           (empty : bool) : (list (str * N) * bool) * element * element :=
+  let snap := if empty then ([], true) else snapshot (get_child (echildren root) name) in
+  let '(found, others) := remove_child (echildren root) name in
+  let root1 := set_children root others in
+  let c0 :=
+    match found with
+    | Some c =>
+        let c1 := merge_attr (snd c) (map (fun a => (Mand, a)) keys) in
+        let c2 := if mem name known then set_multiple c1 else c1 in
+        increment c2
+    | None =>
+        let c1 := new_element name keys in
+        if mem name known then set_multiple c1 else c1
+    end in
+  (snap, root1, c0).
+
+(* the rest of parse_tag and tag_optional_children, once the content has been read *)
+Definition tag_close (root1 : element) (name : str) (child : element)
+           (snap : list (str * N) * bool) : element :=
+  let root2 := add_unique_child root1 child in
+  if snd snap then tag_optional_children root2 name (fst snap) else root2.
+
+(* build_struct with parse_tag inlined; recursion on fuel, each call consumes an event.
+   `count` is an unbounded N here; Proofs/ParserTotal.v bounds it by the number of events,
+   which is what excludes the u32 overflow of `count += 1`. *)
+Fixpoint build_struct (fuel : nat) (evs : list event) (root : element) (known : list str)
+  {struct fuel} : outcome (element * list event) :=
+  match fuel with
+  | O => OutOfFuel
+  | S fuel' =>
+      match evs with
+      | [] => Ok (root, [])                                   (* Eof *)
+      | ev :: rest =>
+          let tag (n : res str) (attrs : list attr_res) (empty : bool) :=
+            match n with
+            | RBad id => Err (FromUtf8Error id)
+            | ROk name =>
+                match attr_keys attrs with
+                | inl e => Err e
+                | inr keys =>
+                    let '(snap, root1, c0) := tag_open root name keys known empty in
+                    let sub := if empty then Ok (c0, rest) else build_struct fuel' rest c0 [] in
+                    match sub with
+                    | Ok (child, rest') =>
+                        build_struct fuel' rest' (tag_close root1 name child snap)
+                                     (known_add known name)
+                    | Err e => Err e
+                    | OutOfFuel => OutOfFuel
+                    end
+                end
+            end in
+          match ev with
+          | EStart n attrs => tag n attrs false
+          | EEmpty n attrs => tag n attrs true
+          | EEnd => Ok (root, rest)
+          | EText (ROk _) | ECData (ROk _) => build_struct fuel' rest (set_text root true) known
+          | EText (RBad id) | ECData (RBad id) => Err (FromUtf8Error id)
+          | EMisc => build_struct fuel' rest root known
+          | EErr p id => Err (QuickXmlError p id)
+          end
+      end
+  end.
 
 Definition wrapper : element := new_element (s "root"%string) [].
 
@@ -166,7 +170,6 @@ Definition take_root (r : outcome (element * list event)) : outcome element :=
                   end
       end
   | Err e => Err e
-  | Panic => Panic
   | OutOfFuel => OutOfFuel
   end.
 
